@@ -362,11 +362,11 @@ def runSys (cw : Nat → Nat) (s : Sys) (ops : List SysOp) : Sys := ops.foldl (S
     sequence (everything complete has been consumed) -/
 def SysOK (s : Sys) : Prop := s.t.wf ∧ next s.pending = .need
 
-theorem sysStep_ok (cw : Nat → Nat) (s : Sys) (hcw : WidthOK s.t.pol cw) (h : SysOK s) (op : SysOp)
+theorem sysStep_ok (cw : Nat → Nat) (s : Sys) (h : SysOK s) (op : SysOp)
     (hv : op.valid) : SysOK (op.step cw s) ∧ (op.step cw s).t.pol = s.t.pol := by
   cases op with
   | read c =>
-    refine ⟨⟨run_wf cw s.t hcw h.1 _, ?_⟩, run_pol cw s.t hcw h.1 _⟩
+    refine ⟨⟨run_wf cw s.t h.1 _, ?_⟩, run_pol cw s.t h.1 _⟩
     exact (runFuel_consumes cw _ s.t (s.pending ++ c) [] (Nat.lt_succ_self _)).1
   | resize w h' => exact ⟨⟨resize_wf s.t w h' hv.1 hv.2 h.1, h.2⟩, rfl⟩
 
@@ -374,21 +374,21 @@ theorem sysStep_ok (cw : Nat → Nat) (s : Sys) (hcw : WidthOK s.t.pol cw) (h : 
     a fresh terminal of any size ≥ 1×1 under either policy: processing reaches a state that
     satisfies the invariant (so every index used by the accessors is in range, see
     `accessors_in_range`) and has consumed every complete token. -/
-theorem system_never_stuck (cw : Nat → Nat) (pol : WidePolicy) (w h : Nat) (hcw : WidthOK pol cw)
+theorem system_never_stuck (cw : Nat → Nat) (pol : WidePolicy) (w h : Nat)
     (hw : 1 ≤ w) (hh : 1 ≤ h) (ops : List SysOp) (hv : ∀ op ∈ ops, op.valid) :
     let s := runSys cw { t := Term.init pol w h } ops
     s.t.wf ∧ s.t.geo ∧ next s.pending = .need ∧
       ∀ y, y < s.t.scr.h → (s.t.scr.row y).length = s.t.scr.w := by
-  have key : ∀ (ops : List SysOp) (s : Sys), WidthOK s.t.pol cw → SysOK s →
+  have key : ∀ (ops : List SysOp) (s : Sys), SysOK s →
       (∀ op ∈ ops, op.valid) → SysOK (runSys cw s ops) := by
     intro ops
     induction ops with
-    | nil => intro s _ h _; exact h
+    | nil => intro s h _; exact h
     | cons op ops ih =>
-      intro s hc h hv
-      obtain ⟨h1, p1⟩ := sysStep_ok cw s hc h op (hv op List.mem_cons_self)
-      exact ih (op.step cw s) (by rw [p1]; exact hc) h1 (fun o ho => hv o (List.mem_cons_of_mem _ ho))
-  have := key ops { t := Term.init pol w h } hcw ⟨init_wf pol w h hw hh, rfl⟩ hv
+      intro s h hv
+      obtain ⟨h1, _⟩ := sysStep_ok cw s h op (hv op List.mem_cons_self)
+      exact ih (op.step cw s) h1 (fun o ho => hv o (List.mem_cons_of_mem _ ho))
+  have := key ops { t := Term.init pol w h } ⟨init_wf pol w h hw hh, rfl⟩ hv
   exact ⟨this.1, wf_geo this.1, this.2, (accessors_in_range _ (wf_geo this.1)).2.1⟩
 
 /-! ## Non-vacuity -/
